@@ -1,9 +1,10 @@
 // Rule G: per-iteration work is really per iteration.
-//   loopdep:  an argument that must differ per row depends on the loop's
-//             iteration variables.
-//   mustpass: every path to the append of the reversed scratch segment
-//             passes, in the same iteration, through SetSlice and
-//             RevComp|Reverse of that scratch (must-dataflow over go/cfg).
+//
+//	loopdep:  an argument that must differ per row depends on the loop's
+//	          iteration variables.
+//	mustpass: every path to the append of the reversed scratch segment
+//	          passes, in the same iteration, through SetSlice and
+//	          RevComp|Reverse of that scratch (must-dataflow over go/cfg).
 package main
 
 import (
